@@ -159,6 +159,9 @@ def _strategy(draw, tier):
     n = Z.space_dim(sd)
     return {'space': sd, 'func': fd,
             'probe_known': draw(st.integers(0, 3)) == 0,
+            # numerical sup-oracle (the most expensive clause): every
+            # eligible case in the thorough tier, one in three in quick
+            'sup': tier != 'quick' or draw(st.integers(0, 2)) == 0,
             'x': draw(Z.vec(n)), 'y': draw(Z.vec(n)),
             'z': draw(Z.vec(n)),
             'sigma': draw(Z.scal_pos()),
@@ -240,12 +243,14 @@ def run_case(desc):
     zraw = np.asarray(desc['z'], float)
     pts = (xraw, yraw, zraw, float(desc['sigma']))
     probe = bool(desc.get('probe_known', False))
+    do_sup = bool(desc.get('sup', True))
     # children first (post-order): the innermost failing node names the
     # root cause
     out = None
     for node, npts in _post_order(B, pts):
         top = node is B
-        res = _guarded(node, npts, top, fd if top else {}, probe)
+        res = _guarded(node, npts, top and do_sup, top, fd if top else {},
+                       probe)
         if res.status == 'excluded' and not top:
             # a part lies in the region of a known finding: the whole
             # expression is excluded (counted)
@@ -266,17 +271,10 @@ def known_region(B):
         q = r.get('quad', '')
         if 'opvec' in q or 'nonsym' in q:
             return 'C08-K1'
-        if r.get('prior') == 'zeros':
-            return 'C08-K2'
         g = r.get('group', '')
         if (g.startswith('p1.0-') or g.startswith('pinf-')) and \
                 ('-cconst' in g or '-carray' in g):
             return 'C08-K3'
-        if r.get('linneg'):
-            return 'C08-K6'
-    if B.cls == 'rightscal' and B.children[0].f.is_linear and any(
-            b.region.get('qplin') for b in B.children[0].nodes()):
-        return 'C08-K7'
     return None
 
 
@@ -304,10 +302,10 @@ def _post_order(B, pts):
     yield B, pts
 
 
-def _guarded(B, pts, top, fd, probe):
+def _guarded(B, pts, do_sup, top, fd, probe):
     ctx = {}
     try:
-        return _check_node(B, pts, top, fd, ctx, probe)
+        return _check_node(B, pts, top, fd, ctx, probe, do_sup)
     except (Violation, HarnessError):
         raise
     except Exception as e:  # noqa
@@ -322,7 +320,7 @@ def _guarded(B, pts, top, fd, probe):
             ctx['who'], ctx['region'], csig.split('|', 2)[2]), tb[-1200:])
 
 
-def _check_node(B, pts, top, fd, ctx, probe=True):
+def _check_node(B, pts, top, fd, ctx, probe=True, do_sup=True):
     sd, space = B.sd, B.space
     xraw, yraw, zraw, sigma = pts
     f, ref, geo = B.f, B.ref, B.geo
@@ -375,8 +373,8 @@ def _check_node(B, pts, top, fd, ctx, probe=True):
 
     # ---- the conjugate ----------------------------------------------------
     expect = fd.get('expect')
-    if expect == 'ValueError' and 'linneg=1' in region:
-        # (negative scalar) * (linear functional) is convex: see C08-K6
+    if expect == 'ValueError' and B.region.get('linneg'):
+        # (negative scalar) * (linear functional) is linear, hence convex
         expect = None
     not_offered = ('IndicatorSimplex' in classes or
                    'IndicatorSumConstraint' in classes)
@@ -395,7 +393,7 @@ def _check_node(B, pts, top, fd, ctx, probe=True):
         if expect == 'ValueError':
             hit('not-offered')
             return Outcome('rejected', strata=strata)
-        if 'linneg=1' in region:
+        if B.region.get('linneg'):
             raise Violation(sig('linear-negative-scaling'),
                             'convex_conj of (linear functional) * negative '
                             'scalar raises ValueError: ' + str(e)[:120])
@@ -547,7 +545,7 @@ def _check_node(B, pts, top, fd, ctx, probe=True):
                 ye, yf = X(ccenter + fac * tstar * direction)
                 res = ref.conj_residual(yf)
                 cands = []
-                for t in (1.0, 10.0, 100.0, 1e3, 1e5):
+                for t in (1.0, 100.0, 1e5):
                     cands.append(t * yf)
                     cands.append(x0 + t * normal)
                     cands.append(x0 + t * (yf - ccenter))
@@ -571,7 +569,7 @@ def _check_node(B, pts, top, fd, ctx, probe=True):
                 elif where == 'in':
                     conj_vs_ref(ye, yf)
                 if f_eval:
-                    for xv in cands[:9]:
+                    for xv in cands[:6]:
                         xe, xf = X(xv)
                         fy_pair(xe, xf, ye, yf, 'fy-adv')
 
@@ -751,7 +749,7 @@ def _check_node(B, pts, top, fd, ctx, probe=True):
                         '{:.3g}); x={}'.format(a, b, a - b, t, xf.tolist()))
 
     # ---- (5) numerical sup oracle -------------------------------------------
-    if top and f_eval and c_eval and ref is not None and ref.smooth and \
+    if do_sup and f_eval and c_eval and ref is not None and ref.smooth and \
             n <= 3 and not ref.thin_conj_dom and not f32 and sk != 'field':
         ye, yf = Ys[-1]
         rv = ref.conj(yf)
@@ -893,7 +891,7 @@ def _sup_oracle(f, space, ye, start):
     best = g(v)
     ok = False
     size = 0.5
-    for _ in range(8):
+    for _ in range(5):
         # explicit initial simplex (scipy's default degenerates for start
         # entries that are zero or tiny)
         sim = [v.copy()]
@@ -904,8 +902,8 @@ def _sup_oracle(f, space, ye, start):
                 w[k] -= 2 * size
             sim.append(w)
         res = minimize(g, v, method='Nelder-Mead',
-                       options={'xatol': 1e-10, 'fatol': 1e-14,
-                                'maxiter': 3000, 'maxfev': 6000,
+                       options={'xatol': 1e-9, 'fatol': 1e-13,
+                                'maxiter': 1000, 'maxfev': 1000,
                                 'initial_simplex': np.array(sim)})
         improved = best - res.fun
         if res.fun <= best:
